@@ -158,6 +158,7 @@ func (p *Prog) computeWriteSets() {
 				case *ssa.MapUpdate:
 					w.add(mapKey(x.Map.Type().Underlying().(*types.Map)))
 				case *ssa.Send:
+					w.add("ghost:sentTotal")
 					w.add("ghost:sent<" + chanKey(x.Chan.Type()) + ">")
 					w.add("ghost:last<" + chanKey(x.Chan.Type()) + ">")
 				case *ssa.Select:
@@ -438,4 +439,33 @@ func (p *Prog) addCallee(w *wset, caller, callee *ssa.Function, cc *ssa.CallComm
 		return
 	}
 	w.setAll("external " + callee.String() + " called from " + caller.Name())
+}
+
+// stableWriters lists, for a key declared stable, the functions that store to it. Only start-up code may.
+func (p *Prog) stableWriters(key string) []string {
+	var out []string
+	for fn := range ssautil.AllFunctions(p.SSA) {
+		if !isRepoFunc(fn) || len(fn.Blocks) == 0 {
+			continue
+		}
+		for _, b := range fn.Blocks {
+			for _, in := range b.Instrs {
+				if st, ok := in.(*ssa.Store); ok {
+					if k := staticKey(st.Addr); k != "" && k != "*" && (k == key || keyHasPrefix(k, key)) {
+						out = append(out, fn.String())
+					}
+				}
+			}
+		}
+	}
+	sort.Strings(out)
+	return out
+}
+
+func startupFunc(name string) bool {
+	short := name
+	if i := strings.LastIndex(short, "."); i >= 0 {
+		short = short[i+1:]
+	}
+	return short == "main" || short == "init" || strings.HasPrefix(short, "init#")
 }
